@@ -1228,6 +1228,12 @@ pub fn hostile_ids(rng: &mut Rng, x: &mut Value, tag: &str) -> bool {
     let sep = *rng.pick(&["_", "-", ".", ":", "/", "|", " ", ""]);
     let mut changed = false;
     // ---- routes and their segments
+    // applied at most once per instance (a second application would hand out the same ids again)
+    let already = x["routes"].as_array().map(|a| a.iter().any(|r| r["id"].as_str() == Some(&format!("{}.K", tag)))).unwrap_or(false)
+        || x["departures"].as_array().map(|a| a.iter().any(|d| d["id"].as_str() == Some(&format!("{}.J", tag)))).unwrap_or(false);
+    if already {
+        return false;
+    }
     let nroutes = x["routes"].as_array().map(|a| a.len()).unwrap_or(0);
     if nroutes >= 2 {
         let a = rng.usize(0, nroutes - 1);
